@@ -59,13 +59,29 @@ func checkOrderedMapCoupling(r *Reporter, p *Prog) {
 		return
 	}
 	info := pk.TypesInfo
+	// stores are matched on resolved operands (curF: the operation's graph with its helpers - also
+	// link/unlink primitives of the element type - in place), so `predecessor.next = e` inside
+	// linkAfter(o.tail) is the store `o.tail.next = <new element>`
+	var curF *FuncCFG
+	var curPt Point
+	keyOf := func(e ast.Expr) string {
+		if curF != nil {
+			return curF.KeyAt(e, curPt)
+		}
+		return exprKey(e)
+	}
 	assignTo := func(lhsSuffix string, rhs func(ast.Expr) bool) func(ast.Node) bool {
 		return func(n ast.Node) bool {
 			as, ok := n.(*ast.AssignStmt)
 			if !ok || len(as.Lhs) != 1 || len(as.Rhs) != 1 {
 				return false
 			}
-			return strings.HasSuffix(exprKey(as.Lhs[0]), lhsSuffix) && (rhs == nil || rhs(as.Rhs[0]))
+			if curF != nil {
+				if pt, found := curF.PointOf(as); found {
+					curPt = pt
+				}
+			}
+			return strings.HasSuffix(keyOf(as.Lhs[0]), lhsSuffix) && (rhs == nil || rhs(as.Rhs[0]))
 		}
 	}
 	incDec := func(field string, tok token.Token) func(ast.Node) bool {
@@ -89,6 +105,7 @@ func checkOrderedMapCoupling(r *Reporter, p *Prog) {
 		r.Unresolved("omap/coupling", om+".OrderedMap.Set", "method not found")
 	} else {
 		key := om + ".OrderedMap.Set"
+		curF = f
 		// existence test: the variable bound to the second result of dictionary.Get
 		var existsVar, elemVar types.Object
 		inspectNoLit(f.Body, func(n ast.Node) bool {
@@ -149,11 +166,14 @@ func checkOrderedMapCoupling(r *Reporter, p *Prog) {
 				}
 			}
 			// append at tail: head = new on head==nil, else tail.next = new and new.prev = tail
-			headNil := f.RelEdges(func(rel Rel) bool {
+			headNil := f.RelEdgesAt(func(rel Rel) bool {
 				return rel.Op == "==" && (stripRoot(rel.L) == ".head" && rel.R == "nil" || stripRoot(rel.R) == ".head" && rel.L == "nil")
 			})
-			headNon := f.RelEdges(func(rel Rel) bool {
+			headNon := f.RelEdgesAt(func(rel Rel) bool {
 				return rel.Op == "!=" && (stripRoot(rel.L) == ".head" && rel.R == "nil" || stripRoot(rel.R) == ".head" && rel.L == "nil")
+			})
+			tailNon := f.RelEdgesAt(func(rel Rel) bool {
+				return rel.Op == "!=" && (stripRoot(rel.L) == ".tail" && rel.R == "nil" || stripRoot(rel.R) == ".tail" && rel.L == "nil")
 			})
 			rows := []struct {
 				name  string
@@ -161,8 +181,12 @@ func checkOrderedMapCoupling(r *Reporter, p *Prog) {
 				edges []Edge
 			}{
 				{"head = new (empty map)", assignTo(".head", nil), headNil},
-				{"tail.next = new", assignTo(".tail.next", nil), headNon},
-				{"new.prev = tail", assignTo(".prev", func(e ast.Expr) bool { return strings.HasSuffix(exprKey(e), ".tail") }), headNon},
+				// the old tail must exist where it is dereferenced: known through head != nil or tail != nil
+				// (both are nil exactly for the empty map)
+				{"tail.next = new", assignTo(".tail.next", nil), append(append([]Edge{}, headNon...), tailNon...)},
+				// pointing the new element back at the old tail needs no guard: for the empty map the old
+				// tail is nil, which is what the first element's prev has to be
+				{"new.prev = tail", assignTo(".prev", func(e ast.Expr) bool { return strings.HasSuffix(keyOf(e), ".tail") }), nil},
 			}
 			for _, rw := range rows {
 				pts := f.Find(rw.pred)
@@ -170,7 +194,9 @@ func checkOrderedMapCoupling(r *Reporter, p *Prog) {
 					r.Fail("omap/coupling", key+" append: "+rw.name, f.P.posStr(f.Body.Pos()), fmt.Sprintf("expected exactly one such store, found %d", len(pts)))
 					continue
 				}
-				if w, only := f.OnlyThroughEdges(pts[0], rw.edges); only {
+				if rw.edges == nil {
+					r.Pass("omap/coupling", key+" append: "+rw.name, f.PosOf(pts[0]), "the new element points back at the old tail")
+				} else if w, only := f.OnlyThroughEdges(pts[0], rw.edges); only {
 					r.Pass("omap/coupling", key+" append: "+rw.name, f.PosOf(pts[0]), "on the matching emptiness edge")
 				} else {
 					r.Fail("omap/coupling", key+" append: "+rw.name, f.PosOf(pts[0]), "store not controlled by the head==nil test", w...)
@@ -183,13 +209,14 @@ func checkOrderedMapCoupling(r *Reporter, p *Prog) {
 		r.Unresolved("omap/coupling", om+".OrderedMap.Delete", "method not found")
 	} else {
 		key := om + ".OrderedMap.Delete"
+		curF = f
 		dels := f.Find(dictCall("Delete"))
 		if len(dels) != 1 {
 			r.Fail("omap/coupling", key, f.P.posStr(f.Body.Pos()), fmt.Sprintf("expected one dictionary.Delete, found %d", len(dels)))
 		} else {
 			// from the dictionary deletion, every path to exit decrements size and fixes both directions
 			nilEdges := func(field string, eq bool) []Edge {
-				return f.RelEdges(func(rel Rel) bool {
+				return f.RelEdgesAt(func(rel Rel) bool {
 					op := "!="
 					if eq {
 						op = "=="
@@ -207,10 +234,10 @@ func checkOrderedMapCoupling(r *Reporter, p *Prog) {
 				pred  func(ast.Node) bool
 				edges []Edge
 			}{
-				{"prev.next = next", assignTo(".prev.next", func(e ast.Expr) bool { return strings.HasSuffix(exprKey(e), ".next") }), nilEdges("prev", false)},
-				{"head = next", assignTo(".head", func(e ast.Expr) bool { return strings.HasSuffix(exprKey(e), ".next") }), nilEdges("prev", true)},
-				{"next.prev = prev", assignTo(".next.prev", func(e ast.Expr) bool { return strings.HasSuffix(exprKey(e), ".prev") }), nilEdges("next", false)},
-				{"tail = prev", assignTo(".tail", func(e ast.Expr) bool { return strings.HasSuffix(exprKey(e), ".prev") }), nilEdges("next", true)},
+				{"prev.next = next", assignTo(".prev.next", func(e ast.Expr) bool { return strings.HasSuffix(keyOf(e), ".next") }), nilEdges("prev", false)},
+				{"head = next", assignTo(".head", func(e ast.Expr) bool { return strings.HasSuffix(keyOf(e), ".next") }), nilEdges("prev", true)},
+				{"next.prev = prev", assignTo(".next.prev", func(e ast.Expr) bool { return strings.HasSuffix(keyOf(e), ".prev") }), nilEdges("next", false)},
+				{"tail = prev", assignTo(".tail", func(e ast.Expr) bool { return strings.HasSuffix(keyOf(e), ".prev") }), nilEdges("next", true)},
 			}
 			for _, rw := range rows {
 				pts := f.Find(rw.pred)
@@ -252,6 +279,7 @@ func checkOrderedMapCoupling(r *Reporter, p *Prog) {
 			}
 		}
 	}
+	curF = nil
 	// ---- Clear
 	if fd := p.FuncDecl(om, "OrderedMap", "Clear"); fd == nil {
 		r.Unresolved("omap/coupling", om+".OrderedMap.Clear", "method not found")
@@ -368,15 +396,41 @@ func checkOmapRemovedKeepsLinks(r *Reporter, p *Prog) {
 	// ForEach/ForEachReverse release the lock between steps and continue from the pointer of the
 	// element they visited last; if that element was deleted meanwhile (by the consumer or by
 	// another goroutine) its own next/prev must still lead back into the chain.
+	// (stepwise = the consumer is invoked with the map's mutex released, inside a loop: the iteration
+	// holds on to an element across a window in which it can be deleted - judged on the iteration's
+	// graph with its helpers in place, whatever form the cursor handling takes)
 	stepwise := 0
 	for _, m := range []string{"ForEach", "ForEachReverse"} {
-		if src, fd := srcOf(p, om, "OrderedMap", m); fd != nil && (strings.Contains(src, "currentEntry=currentEntry.next") || strings.Contains(src, "currentEntry=currentEntry.prev")) && strings.Count(src, ".RLock()") >= 2 {
-			stepwise++
+		ifd := p.FuncDecl(om, "OrderedMap", m)
+		if ifd == nil || ifd.Body == nil {
+			continue
+		}
+		itf := newFuncCFG(p, info, ifd.Body, om+".OrderedMap."+m)
+		params := paramObjs(info, ifd)
+		held := itf.LocksHeld(nil)
+		for _, c := range itf.Calls(func(c *ast.CallExpr) bool { _, isId := ast.Unparen(c.Fun).(*ast.Ident); return isId }) {
+			cpt, found := itf.PointOf(c)
+			if !found || len(params) == 0 || !(objOfIdent(info, c.Fun) == params[0] || itf.IsVar(c.Fun, cpt, params[0])) {
+				continue
+			}
+			inLoop := false
+			for _, l := range itf.Loops() {
+				if itf.InLoopBody(l, cpt) {
+					inLoop = true
+				}
+			}
+			if inLoop && len(held(cpt)) == 0 {
+				stepwise++
+				break
+			}
 		}
 	}
 	if fd := p.FuncDecl(om, "OrderedMap", "Delete"); fd == nil {
 		r.Unresolved("omap/removed-element-keeps-links", om+".OrderedMap.Delete", "method not found")
 	} else if stepwise > 0 {
+		// the removed element: what dictionary.Get(key) returned; its own links must not be written -
+		// in Delete or in an unlink helper the element is handed to
+		df := newFuncCFG(p, info, fd.Body, om+".OrderedMap.Delete")
 		var elem types.Object
 		ast.Inspect(fd.Body, func(n ast.Node) bool {
 			if as, ok := n.(*ast.AssignStmt); ok && len(as.Rhs) == 1 && len(as.Lhs) == 2 && strings.HasSuffix(exprKey(as.Rhs[0]), ".dictionary.Get(key)") {
@@ -385,16 +439,31 @@ func checkOmapRemovedKeepsLinks(r *Reporter, p *Prog) {
 			return true
 		})
 		var bad []string
-		ast.Inspect(fd.Body, func(n ast.Node) bool {
-			if as, ok := n.(*ast.AssignStmt); ok {
-				for _, l := range as.Lhs {
-					if se, ok := ast.Unparen(l).(*ast.SelectorExpr); ok && (se.Sel.Name == "next" || se.Sel.Name == "prev") && elem != nil && objOfIdent(info, se.X) == elem {
-						bad = append(bad, p.posStr(as.Pos())+" "+exprKey(l)+" = "+exprKey(as.Rhs[0]))
+		for _, b := range df.G.Blocks {
+			if !b.Live {
+				continue
+			}
+			for bi, nd := range b.Nodes {
+				as, ok := nd.(*ast.AssignStmt)
+				if !ok {
+					continue
+				}
+				pt := Point{b, bi}
+				for li, l := range as.Lhs {
+					se, ok := ast.Unparen(l).(*ast.SelectorExpr)
+					if !ok || (se.Sel.Name != "next" && se.Sel.Name != "prev") || elem == nil {
+						continue
+					}
+					if objOfIdent(info, se.X) == elem || df.IsVar(se.X, pt, elem) {
+						rhs := ""
+						if li < len(as.Rhs) {
+							rhs = exprKey(as.Rhs[li])
+						}
+						bad = append(bad, p.posStr(as.Pos())+" "+exprKey(l)+" = "+rhs)
 					}
 				}
 			}
-			return true
-		})
+		}
 		switch {
 		case elem == nil:
 			r.Fail("omap/removed-element-keeps-links", om+".OrderedMap.Delete", p.posStr(fd.Pos()), "the removed element (dictionary.Get(key)) was not found")
